@@ -273,7 +273,11 @@ func NewRankExpr(scanner parser.Scanner, a, key Expr) Expr {
 						if err != nil {
 							return nil, err
 						}
-						return result.(Tuple), nil
+						t, is := result.(Tuple)
+						if !is {
+							return nil, errors.Errorf("'rank' rhs must return a tuple, not %s", ValueTypeAsString(result))
+						}
+						return t, nil
 					})
 				}
 				return nil, errors.Errorf("'rank' rhs must be a function, not %s", ValueTypeAsString(a))
